@@ -18,8 +18,10 @@ import (
 	"math/rand"
 	"net"
 	"os"
+	"runtime"
 	"strings"
 	"sync"
+	"sync/atomic"
 	"time"
 
 	"github.com/enbility/ship-go/api"
@@ -47,6 +49,44 @@ type thProxy struct {
 	mu     sync.Mutex
 	cut    bool
 	conns  []net.Conn
+	lat    time.Duration // one-way latency added to every chunk
+}
+
+// copy with latency: a chunk read at time t is written at t+lat (order kept)
+func (p *thProxy) pipe(dst, src net.Conn) {
+	p.mu.Lock()
+	lat := p.lat
+	p.mu.Unlock()
+	if lat == 0 {
+		_, _ = io.Copy(dst, src)
+		return
+	}
+	type chunk struct {
+		b  []byte
+		at time.Time
+	}
+	ch := make(chan chunk, 1024)
+	go func() {
+		defer close(ch)
+		for {
+			buf := make([]byte, 32*1024)
+			n, err := src.Read(buf)
+			if n > 0 {
+				ch <- chunk{buf[:n], time.Now().Add(lat)}
+			}
+			if err != nil {
+				return
+			}
+		}
+	}()
+	for c := range ch {
+		if d := time.Until(c.at); d > 0 {
+			time.Sleep(d)
+		}
+		if _, err := dst.Write(c.b); err != nil {
+			return
+		}
+	}
 }
 
 func newThProxy(target int) *thProxy {
@@ -76,8 +116,8 @@ func newThProxy(target int) *thProxy {
 			p.mu.Lock()
 			p.conns = append(p.conns, c, t)
 			p.mu.Unlock()
-			go func() { _, _ = io.Copy(t, c); t.Close(); c.Close() }()
-			go func() { _, _ = io.Copy(c, t); t.Close(); c.Close() }()
+			go func() { p.pipe(t, c); t.Close(); c.Close() }()
+			go func() { p.pipe(c, t); t.Close(); c.Close() }()
 		}
 	}()
 	return p
@@ -206,6 +246,10 @@ func (f thFacts) String() string {
 		map[bool]string{true: ",err=" + strings.ReplaceAll(f.connErr, " ", "_"), false: ""}[f.connErr != ""]
 }
 
+// handshake states at which a targeted cut is placed (waiting states of both roles)
+var cutStatesClient = []int{2, 8, 22, 27, 36, 38}
+var cutStatesServer = []int{4, 8, 11, 20, 21, 27, 36, 38}
+
 type thResult struct {
 	ops  []string
 	line string
@@ -230,6 +274,17 @@ func runTwoHubs(id int, seed int64, nops int) *thResult {
 			b.hub.Shutdown()
 		}
 	}()
+	// a third of the scenarios run over a path with latency and use the targeted disturbances (cut at a chosen
+	// handshake state, simultaneous registration storms)
+	targeted := rnd.Intn(3) == 0
+	if targeted {
+		lat := time.Duration(5+rnd.Intn(30)) * time.Millisecond
+		for _, x := range []*thNode{a, b} {
+			x.via.mu.Lock()
+			x.via.lat = lat
+			x.via.mu.Unlock()
+		}
+	}
 	nodes := map[string]*thNode{"A": a, "B": b}
 	other := func(n *thNode) *thNode {
 		if n == a {
@@ -269,7 +324,11 @@ func runTwoHubs(id int, seed int64, nops int) *thResult {
 		if !n.running {
 			continue
 		}
-		switch k := rnd.Intn(100); {
+		k := rnd.Intn(100)
+		if targeted && rnd.Intn(3) == 0 {
+			k = 93 + rnd.Intn(5)
+		}
+		switch {
 		case k < 32:
 			n.hub.RegisterRemoteSKI(o.ski)
 			reg[n.name] = true
@@ -331,6 +390,88 @@ func runTwoHubs(id int, seed int64, nops int) *thResult {
 			n.via.setCut(false)
 			cutNow[n.name] = false
 			op("heal" + n.name)
+		case k < 96 && targeted:
+			// the path between the hubs fails at the moment this hub's connection is in a chosen handshake state
+			n.hub.RegisterRemoteSKI(o.ski)
+			reg[n.name] = true
+			cancelled[n.name] = false
+			if rnd.Intn(2) == 0 {
+				o.hub.RegisterRemoteSKI(n.ski)
+				reg[o.name] = true
+				cancelled[o.name] = false
+			}
+			dialler := []*thNode{n, o}[rnd.Intn(2)]
+			if !reg[dialler.name] {
+				dialler = n
+			}
+			states := cutStatesServer
+			if dialler == n {
+				states = cutStatesClient
+			}
+			want := states[rnd.Intn(len(states))]
+			dialler.mdns.publish(other(dialler).entry())
+			vis[dialler.name] = true
+			hit := -1
+			deadline := time.Now().Add(1500 * time.Millisecond)
+			for time.Now().Before(deadline) {
+				if c := n.hub.VerifConnectionFor(o.ski); c != nil {
+					if st, _ := c.ShipHandshakeState(); int(st) == want {
+						hit = int(st)
+						break
+					}
+				}
+				time.Sleep(100 * time.Microsecond)
+			}
+			a.via.setCut(true)
+			b.via.setCut(true)
+			time.Sleep(time.Duration(100+rnd.Intn(500)) * time.Millisecond)
+			a.via.setCut(false)
+			b.via.setCut(false)
+			op(fmt.Sprintf("cutAt%s(%d,hit=%d,dial=%s)", n.name, want, hit, dialler.name))
+		case k < 98 && targeted:
+			// several rounds of both hubs registering and seeing each other at the same instant: double connections
+			rounds := 2 + rnd.Intn(4)
+			for r := 0; r < rounds; r++ {
+				var wg sync.WaitGroup
+				var goFlag atomic.Bool
+				// one side may be ahead by up to a few one-way latencies: which connection a hub sees first varies
+				late := []*thNode{a, b}[rnd.Intn(2)]
+				lateBy := time.Duration(rnd.Int63n(int64(4*a.via.lat + 2*time.Millisecond)))
+				for _, x := range []*thNode{a, b} {
+					if !x.running {
+						continue
+					}
+					wg.Add(1)
+					go func(x *thNode) {
+						defer wg.Done()
+						for !goFlag.Load() {
+							runtime.Gosched()
+						}
+						if x == late {
+							time.Sleep(lateBy)
+						}
+						x.hub.RegisterRemoteSKI(other(x).ski)
+						x.mdns.publish(other(x).entry())
+					}(x)
+				}
+				time.Sleep(time.Millisecond)
+				goFlag.Store(true)
+				wg.Wait()
+				time.Sleep(time.Duration(150+rnd.Intn(400)) * time.Millisecond)
+				if r < rounds-1 {
+					x := []*thNode{a, b}[rnd.Intn(2)]
+					if x.running {
+						x.hub.DisconnectSKI(other(x).ski, "again")
+					}
+					time.Sleep(time.Duration(rnd.Intn(30)) * time.Millisecond)
+				}
+			}
+			for _, x := range []*thNode{a, b} {
+				if x.running {
+					reg[x.name], vis[x.name], cancelled[x.name] = true, true, false
+				}
+			}
+			op(fmt.Sprintf("storm%d", rounds))
 		default:
 			d := time.Duration(rnd.Intn(900)) * time.Millisecond
 			time.Sleep(d)
